@@ -171,6 +171,14 @@ pub fn run(args: &[&str]) -> String {
       }
       "bad-request".into()
     }
+    Some("sign") if args.len() == 3 => {
+      let (o, pl) = (args[1].to_string(), args[2].to_string());
+      match std::panic::catch_unwind(move || sign_req(&o, &pl)) {
+        Ok(Some(s)) => s,
+        Ok(None) => "bad-request".into(),
+        Err(_) => "PANIC\t#FAIL:panic:storage-backed signing panicked".into(),
+      }
+    }
     Some("doc") if args.len() == 2 => {
       let Ok(n) = args[1].parse::<u64>() else { return "bad-request".into() };
       match std::panic::catch_unwind(move || doc_stream(n)) {
@@ -397,6 +405,161 @@ fn doc_stream(n: u64) -> Option<String> {
   None
 }
 
+const SIGN_TEXTS: [&str; 8] = ["vc+jwt", "application/example;part=\"1/2\"", "two words", "ünï-é€", "", "q83vEjRWeJA=", "challenge:42", "a.b/c+d_e-f"];
+const SIGN_URLS: [&str; 3] = ["https://example.com/x", "https://example.com/a%20b?q=1&r=%C3%A9#frag", "did:example:1234"];
+
+/// `C08 sign <opts> <payload>`: create_jws (or, `j:1`, create_credential_jwt) with explicit options; the reply names
+/// what the token's decoded protected header carries, text values by their index in the pools (the model's names)
+fn sign_req(opts: &str, pl: &str) -> Option<String> {
+  use identity_core::common::{Object, Url};
+  use identity_did::{CoreDID, DID};
+  use identity_document::document::CoreDocument;
+  use identity_storage::{JwkDocumentExt, JwkMemStore, JwsSignatureOptions, KeyIdMemstore, Storage};
+  use identity_verification::MethodScope;
+  let payload = unhex(pl)?;
+  let m: std::collections::HashMap<&str, &str> = opts.split(';').filter_map(|kv| kv.split_once(':')).collect();
+  let idx = |k: &str| -> Option<Option<usize>> {
+    match *m.get(k)? {
+      "~" => Some(None),
+      v => v.parse().ok().map(Some),
+    }
+  };
+  let flag = |k: &str| -> Option<bool> {
+    match *m.get(k)? {
+      "1" => Some(true),
+      "0" => Some(false),
+      _ => None,
+    }
+  };
+  let rt = tokio::runtime::Builder::new_current_thread().build().unwrap();
+  let storage = Storage::new(JwkMemStore::new(), KeyIdMemstore::new());
+  let iota = payload.len() % 2 == 1;
+  let mut doc = if iota {
+    SD::Iota(identity_iota_core::IotaDocument::new_with_id(identity_iota_core::IotaDID::parse(format!("did:iota:0x{}", "ab".repeat(32))).unwrap()))
+  } else {
+    SD::Core(CoreDocument::builder(Object::new()).id(CoreDID::parse("did:example:holder").unwrap()).build().unwrap())
+  };
+  doc.generate(&rt, &storage, "a", MethodScope::VerificationMethod)?;
+  let method_id = doc.core().id().to_url().join("#a").unwrap();
+  let mut o = JwsSignatureOptions::new();
+  if flag("a")? {
+    o = o.attach_jwk_to_header(true);
+  }
+  match *m.get("b")? {
+    "~" => {}
+    "t" => o = o.b64(true),
+    "f" => o = o.b64(false),
+    _ => return None,
+  }
+  if let Some(i) = idx("t")? {
+    o = o.typ(*SIGN_TEXTS.get(i)?);
+  }
+  if let Some(i) = idx("c")? {
+    o = o.cty(*SIGN_TEXTS.get(i)?);
+  }
+  if let Some(i) = idx("u")? {
+    o = o.url(Url::parse(*SIGN_URLS.get(i)?).ok()?);
+  }
+  if let Some(i) = idx("n")? {
+    o = o.nonce(*SIGN_TEXTS.get(i)?);
+  }
+  if let Some(i) = idx("k")? {
+    o = o.kid(*SIGN_TEXTS.get(i)?);
+  }
+  if flag("d")? {
+    o = o.detached_payload(true);
+  }
+  if flag("x")? {
+    let mut c = Object::new();
+    c.insert("x-custom".into(), serde_json::json!({"a": [1, "two"]}));
+    o = o.custom_header_parameters(c);
+  }
+  let jwt = flag("j")?;
+  let token: String = if jwt {
+    // the JWT wrapper: a credential whose claims are not looked at here (the payload argument only selects the document kind)
+    use identity_credential::credential::{CredentialBuilder, Subject};
+    let cred: identity_credential::credential::Credential = CredentialBuilder::default()
+      .issuer(Url::parse(doc.core().id().as_str()).ok()?)
+      .subject(Subject::with_id(Url::parse("did:example:subject").ok()?))
+      .build()
+      .ok()?;
+    let r = match &doc {
+      SD::Core(d) => rt.block_on(d.create_credential_jwt(&cred, &storage, "a", &o, None)),
+      SD::Iota(d) => rt.block_on(d.create_credential_jwt(&cred, &storage, "a", &o, None)),
+    };
+    match r {
+      Ok(j) => j.as_str().to_string(),
+      Err(_) => return Some("err".into()),
+    }
+  } else {
+    match doc.create(&rt, &storage, "a", &payload, &o) {
+      Ok(j) => j.as_str().to_string(),
+      Err(_) => return Some("err".into()),
+    }
+  };
+  // read the protected header back from the token's first segment (JSON), independently of the library's header type
+  let seg0 = token.split('.').next()?;
+  let hj: serde_json::Value = serde_json::from_slice(&crate::c01::b64_strict(seg0.as_bytes())?).ok()?;
+  let ho = hj.as_object()?;
+  let name = |v: Option<&serde_json::Value>, pre: &str, pool: &[&str]| -> String {
+    match v {
+      None => "~".into(),
+      Some(serde_json::Value::String(s)) => match pool.iter().position(|p| p == s) {
+        Some(i) => format!("{}{}", pre, i),
+        None => format!("?{}", s),
+      },
+      Some(other) => format!("?{}", other),
+    }
+  };
+  let kid = match ho.get("kid").and_then(|v| v.as_str()) {
+    Some(k) if k == method_id.to_string() => "M".to_string(),
+    other => name(other.map(|s| serde_json::Value::String(s.to_string())).as_ref(), "k", &SIGN_TEXTS),
+  };
+  let typ = match ho.get("typ").and_then(|v| v.as_str()) {
+    Some("JWT") => "JWT".to_string(),
+    _ => name(ho.get("typ"), "t", &SIGN_TEXTS),
+  };
+  let urls: Vec<String> = SIGN_URLS.iter().map(|u| Url::parse(*u).map(|x| x.as_str().to_string()).unwrap_or_default()).collect();
+  let urls_ref: Vec<&str> = urls.iter().map(|s| s.as_str()).collect();
+  let own = doc.core().resolve_method(&method_id, None).and_then(|mm| mm.data().public_key_jwk()).map(|j| j.thumbprint_sha256_b64());
+  let jwk = match ho.get("jwk") {
+    None => "0".to_string(),
+    Some(j) => match serde_json::from_value::<identity_jose::jwk::Jwk>(j.clone()) {
+      Ok(j) if j.is_public() && Some(j.thumbprint_sha256_b64()) == own => "1".to_string(),
+      _ => "?".to_string(),
+    },
+  };
+  let b64 = match ho.get("b64") {
+    None => "~".to_string(),
+    Some(serde_json::Value::Bool(true)) => "t".into(),
+    Some(serde_json::Value::Bool(false)) => "f".into(),
+    Some(x) => format!("?{}", x),
+  };
+  let crit = match ho.get("crit") {
+    None => "~".to_string(),
+    Some(serde_json::Value::Array(a)) => a.iter().map(|x| x.as_str().unwrap_or("?").to_string()).collect::<Vec<_>>().join(","),
+    Some(x) => format!("?{}", x),
+  };
+  let declared = ["alg", "kid", "typ", "cty", "url", "nonce", "jwk", "b64", "crit"];
+  let mut cust: Vec<String> = ho.keys().filter(|k| !declared.contains(&k.as_str())).cloned().collect();
+  cust.sort();
+  let det = token.split('.').nth(1).map(|p| p.is_empty()).unwrap_or(false);
+  Some(format!(
+    "ok:alg={};kid={};typ={};cty={};url={};nonce={};jwk={};b64={};crit={};cust={};det={}",
+    ho.get("alg").and_then(|v| v.as_str()).unwrap_or("~"),
+    kid,
+    typ,
+    name(ho.get("cty"), "c", &SIGN_TEXTS),
+    name(ho.get("url"), "u", &urls_ref),
+    name(ho.get("nonce"), "n", &SIGN_TEXTS),
+    jwk,
+    b64,
+    crit,
+    if cust.is_empty() { "~".to_string() } else { cust.join(",") },
+    det as u8
+  ))
+}
+
 /// the document the storage-backed signing stream runs against
 enum SD {
   Core(identity_document::document::CoreDocument),
@@ -521,5 +684,33 @@ pub fn gen(thorough: bool, seed: u64, out: &mut impl Write) {
   let _ = b64_strict;
   for k in 0..(if thorough { 4000 } else { 300 }) {
     writeln!(out, "C08 doc {}", seed * 100_000 + k).unwrap();
+    // storage-backed signing with explicit options, compared with the model of create_jws (header assembly, refusals)
+    let pick = |r: &mut Rng, n: u64| if r.chance(1, 2) { "~".to_string() } else { r.below(n).to_string() };
+    let payload: Vec<u8> = match r.below(5) {
+      0 => b"payload".to_vec(),
+      1 => b"{\"a\":\"b\"}".to_vec(),
+      2 => b"with.dot".to_vec(),
+      3 => {
+        let n = 1 + r.below(40) as usize;
+        r.bytes(n)
+      }
+      _ => "é€ text ~".as_bytes().to_vec(),
+    };
+    writeln!(
+      out,
+      "C08 sign a:{};b:{};t:{};c:{};u:{};n:{};k:{};d:{};x:{};j:{} {}",
+      r.below(2),
+      r.pick(&["~", "t", "f", "f"]),
+      pick(&mut r, 8),
+      pick(&mut r, 8),
+      pick(&mut r, 3),
+      pick(&mut r, 8),
+      pick(&mut r, 8),
+      r.below(2),
+      r.below(2),
+      if r.chance(1, 5) { 1 } else { 0 },
+      hex(&payload)
+    )
+    .unwrap();
   }
 }
